@@ -114,7 +114,7 @@ bfv_cases!(ops_usize, copy_usize, unal_usize, apply_usize, usize);
 
 
 /// from_slice / extend / try_chunks_mut / set through chunks; input [src_type, dst_type, width, len, chunk, seed]
-fn misc_case(inp: &[u64]) -> Result<(), String> {
+fn misc_case(inp: &[u64], chunks: bool) -> Result<(), String> {
     use sux::traits::bit_field_slice::*;
     let (width, len, chunk, seed) = (inp[2] as usize, inp[3] as usize, (inp[4] as usize).max(1), inp[5]);
     let mut rng = Rng(seed);
@@ -127,13 +127,13 @@ fn misc_case(inp: &[u64]) -> Result<(), String> {
     if src.len() != len { return Err("extend: len".into()); }
     for i in 0..len { if src.get(i) != vals[i] { return Err(format!("extend: get({})", i)); } }
     let need = vals.iter().map(|&x| 16 - x.leading_zeros() as usize).max().unwrap_or(0);
-    match inp[1] % 3 {
+    if !chunks { match inp[1] % 3 {
         0 => { let r = BitFieldVec::<u8>::from_slice(&src);
                if need <= 8 { let d = r.map_err(|e| format!("from_slice<u8> rejected values of {} bits: {}", need, e))?; for i in 0..len { if d.get(i) as u16 != vals[i] { return Err(format!("from_slice<u8>: get({})", i)); } } }
                else if r.is_ok() { return Err(format!("from_slice<u8> accepted values of {} bits", need)); } }
         1 => { let d = BitFieldVec::<u16>::from_slice(&src).map_err(|e| format!("from_slice<u16> rejected values of {} bits: {}", need, e))?; for i in 0..len { if d.get(i) != vals[i] { return Err(format!("from_slice<u16>: get({})", i)); } } }
         _ => { let d = BitFieldVec::<u64>::from_slice(&src).map_err(|e| format!("from_slice<u64>: {}", e))?; for i in 0..len { if d.get(i) as u16 != vals[i] { return Err(format!("from_slice<u64>: get({})", i)); } } }
-    }
+    } return Ok(()); }
     // chunked writes: every element is written exactly once through the chunks, nothing else changes
     let spare = 1usize;
     let nw = ((len * w16 + 15) / 16).max(1) + spare;
@@ -162,7 +162,8 @@ fn run_one(case: &str, inp: &[u64]) -> Result<(), String> {
     let t = inp[0] % 6;
     let rest = &inp[1..];
     macro_rules! pick { ($a:ident, $b:ident, $c:ident, $d:ident, $e:ident, $f:ident) => { match t { 0 => $a(rest), 1 => $b(rest), 2 => $c(rest), 3 => $d(rest), 4 => $e(rest), _ => $f(rest) } } }
-    if case == "bfv_misc" { return misc_case(inp); }
+    if case == "bfv_misc" { return misc_case(inp, false); }
+    if case == "bfv_chunks" { return misc_case(inp, true); }
     match case {
         "bfv_ops" => pick!(ops_u8, ops_u16, ops_u32, ops_u64, ops_u128, ops_usize),
         "bfv_copy" => pick!(copy_u8, copy_u16, copy_u32, copy_u64, copy_u128, copy_usize),
@@ -177,7 +178,7 @@ pub fn run(case: &str, ctx: &mut Ctx, one: Option<&str>, rng: &mut Rng, budget: 
         ctx.trial(s, false, || run_one(case, &inp));
         return;
     }
-    if case == "bfv_misc" {
+    if case == "bfv_misc" || case == "bfv_chunks" {
         for dst in 0..3u64 { for w in [0u64, 1, 7, 8, 9, 15, 16] { for len in [0u64, 1, 2, 17, 64] { for chunk in [1u64, 2, 8, 16, 100] { let v = vec![1, dst, w, len, chunk, 5 + w + len]; let s = fmt_list(&v); ctx.trial(&s, false, || run_one(case, &v)); } } } }
         for _ in 0..budget.min(3000) { let v = vec![1, rng.below(3), rng.below(17), rng.below(300), 1 + rng.below(40), rng.next()]; let s = fmt_list(&v); ctx.trial(&s, false, || run_one(case, &v)); }
         return;
